@@ -43,7 +43,7 @@ CHECKS = {
         note='in-memory transport instead of a socket; peer-credential lookup disabled; ' + TRUST),
     'C05': dict(
         category='exploration', design_ref='DESIGN.md section 3 C05',
-        technique='mutation/grammar-directed fuzzing (Hypothesis) with an interpreter-step budget oracle (sys.settrace)',
+        technique='mutation/grammar-directed fuzzing (Hypothesis, enumerated hostile families, atheris in the thorough tier) with an interpreter-step budget oracle (sys.settrace), result-size bounds (nodes, text) and metamorphic cost relations (copied bytes, additive cost of header fields and body)',
         text='Truncations (exhaustive per message), byte mutations, every length field rewritten to lying values '
              '(located by the reference encoder offset map), a list of hostile signatures in header and variants, and '
              'raw bytes are fed to parseMessage, unmarshal and dataReceived; each call must return or raise within a '
@@ -186,7 +186,7 @@ CHECKS = {
         note='value generator restricted to the claim of the property (no same-class/different-type siblings); ' + TRUST),
     'C20': dict(
         category='exploration', design_ref='DESIGN.md section 3 C20',
-        technique='schedule generation: Hypothesis-drawn and exhaustively enumerated fd-arrival/read interleavings',
+        technique='schedule generation: Hypothesis-drawn and exhaustively enumerated fd-arrival/read interleavings against a reference encoder (incl. shared attachments, refused messages that carry descriptors)',
         text='Sender: generated calls with 0-3 descriptors through callRemote on a UNIX transport double; descriptors '
              'must precede the bytes in argument order and the header must declare their count. Receiver: generated '
              'streams with every stream-consistent placement of descriptor arrivals (exhaustive for <=3 messages x <=2 '
